@@ -152,13 +152,19 @@ func VerifC06Versions() {
 		rM := r2
 		tc := mkvs.NewWithRoot(nil, db, rM)
 		ckey, cval := symx.Bytes("childKey", 1), symx.Bytes("childVal", 1)
+		if symx.Cfg("chainfix", 0) == 1 {
+			ckey = []byte{0x10} // fixed keys, symbolic values: the finalisation logic under test depends on the root structure only
+		}
 		symx.Assert(tc.Insert(ctx, ckey, cval) == nil, "Insert failed")
 		cChild = c06Set(append([]c06KV{}, c2...), ckey, cval)
 		_, hc, err := tc.Commit(ctx, ns, 2)
 		symx.Assert(err == nil, "Commit of the competing child root failed")
 		tc.Close()
 		key := symx.Bytes("chainKey", 1)
-		if symx.Bool("chainRemove") {
+		if symx.Cfg("chainfix", 0) == 1 {
+			key = []byte{0x20}
+		}
+		if symx.Cfg("chainfix", 0) != 1 && symx.Bool("chainRemove") {
 			symx.Assert(t1.Remove(ctx, key) == nil, "Remove failed")
 			c2 = c06Del(c2, key)
 		} else {
@@ -184,7 +190,17 @@ func VerifC06Versions() {
 		cSibling2 = append([]c06KV{}, c1...)
 		for i := 0; i < symx.Cfg("sn", 2); i++ {
 			key := symx.Bytes(symx.N("sopKey", i), 1)
-			if symx.Bool(symx.N("sopRemove", i)) {
+			remove := false
+			if symx.Cfg("sfixed", 0) == 1 {
+				// fixed shape: remove a key, re-insert the same key (possibly with its old value), then insert further keys
+				remove = i == 0
+				if i == 1 {
+					key = symx.Bytes(symx.N("sopKey", 0), 1)
+				}
+			} else {
+				remove = symx.Bool(symx.N("sopRemove", i))
+			}
+			if remove {
 				symx.Assert(ts2.Remove(ctx, key) == nil, "Remove failed")
 				cSibling2 = c06Del(cSibling2, key)
 			} else {
